@@ -47,6 +47,7 @@ This private submodule is *not* intended for importation by downstream callers.
 #Checkmate, "typing". Checkmate.
 
 # ....................{ IMPORTS                            }....................
+from beartype.roar import BeartypeDecorHintNonpepException
 from beartype._cave._cavefast import NotImplementedType
 # from beartype._cave._cavemap import NoneTypeOr
 from beartype._data.func.datafunc import METHOD_NAMES_DUNDER_BINARY
@@ -266,7 +267,20 @@ def coerce_hint_root(hint: Hint, exception_prefix: str) -> Hint:
     # By definition, PEP-compliant unions are a superset of PEP-noncompliant
     # tuple unions and thus accept all child hints accepted by the latter.
     if isinstance(hint, tuple):
-        return make_hint_pep484_union(hint)
+        # Attempt to do so.
+        try:
+            return make_hint_pep484_union(hint)
+        # If doing so raises the builtin "TypeError" exception, one or more
+        # items of this tuple union are *NOT* valid child hints of a union
+        # (e.g., nested tuples, unhashable objects, bare "typing" special forms
+        # like "typing.Generic"). The "typing.Union" factory validates its
+        # child hints and reports invalid child hints with this exception.
+        except TypeError as exception:
+            raise BeartypeDecorHintNonpepException(
+                f'{exception_prefix}tuple union {repr(hint)} invalid '
+                f'(i.e., one or more items not valid child type hints of a '
+                f'union).'
+            ) from exception
     # Else, this hint is *NOT* a PEP-noncompliant tuple union.
 
     # ..................{ RETURN                             }..................
